@@ -45,6 +45,7 @@ GEOMS: Dict[str, Any] = {
     "no": ([8, 7], [[1.15, 0.02, 0.01], [0.0, 0.0, 0.0]]),       # doublet
     "oh": ([8, 1], [[0.0, 0.0, 0.0], [0.97, 0.03, 0.02]]),      # doublet
     "o2": ([8, 8], [[0.0, 0.0, 0.0], [1.21, 0.03, 0.02]]),      # triplet
+    "n2": ([7, 7], [[0.0, 0.0, 0.0], [1.10, 0.03, 0.02]]),      # same atom count and sum of Z as CO
 }
 # two methane molecules 4.6 A apart (one input "molecule"): long-range pair terms (dispersion corrections) act between them
 _m = GEOMS["ch4"][1]
